@@ -37,7 +37,17 @@ def one(rng, system):
         calls.append(("binarize", {}))
     if rng.random() < 0.15:
         calls.append(("add_topnode", {}))
-    _, _, b = tx.run_impl(calls, tx.fresh(t, 1))
+    src = tx.fresh(t, 1)
+    batch = False
+    if rng.random() < 0.25:
+        # the treebank is read completely before the first tree is processed
+        import history
+        others = [treegen.gen_tree(rng, treegen.Cfg(n_min=1, n_max=4, none_fields=False, labels=treegen.PLAIN_LABELS))
+                  for _ in range(rng.randint(1, 2))]
+        got = history.batch_read(rng, [t] + others, "export")
+        if got:
+            src, batch = got[0], True
+    _, _, b = tx.run_impl(calls, src)
     if b is None:
         return None
     a = proto.enc_tree(b)
@@ -66,8 +76,9 @@ def one(rng, system):
         l.expect = "no-error-expected"
         lines.append(l)
     n = len(trees.terminals(b))
-    return Case(system, {"tree": proto.pretty_tree(b), "calls": tx.calls_str(calls), "transitions": out[:80]}, lines,
-                nontrivial=n > 2, tags=["disc"] if disc else [])
+    return Case(system, {"tree": proto.pretty_tree(b), "calls": tx.calls_str(calls), "transitions": out[:80],
+                         "read-as-part-of-a-treebank": batch}, lines,
+                nontrivial=n > 2, tags=(["disc"] if disc else []) + (["batch-read"] if batch else []))
 
 
 def cli_case(rng):
